@@ -288,11 +288,6 @@ def classify(req, impl_out, model_out, failure):
     if not m:
         return None
     mode, start, src = _req_source(ws)
-    # (1) Expression mode, source without any token, start offset > 0: UnrecognizedEof is located at the end of
-    #     the start-marker token, whose range is 0..0  ->  offset 0 < start
-    if (failure.startswith("parser error offset 0 outside") and mode == "e" and start > 0
-            and m.group(2) == "ok" and int(m.group(4)) == 0 and m.group(6) == "0"):
-        return "expression-mode-blank-source-offset-0"
     # (2) string.rs computes offsets from the token VALUE, in which the lexer folded CRLF to LF: errors after a
     #     CRLF inside a string literal are reported one byte early per CRLF and can land inside a UTF-8 sequence
     if "parser error offset" in failure and "not on a character boundary" in failure and m.group(2) == "ok":
